@@ -267,7 +267,7 @@ def gen_history(rng: random.Random, length: int):
             op = ["RemoveColl", rng.choice(sorted(sp.colls)) if sp.colls and rng.random() < 0.8 else anyc()]
         hist.append(op)
         verdict, n = sp.judge(op)
-        if verdict in ("accept", "either") and n is not None:
+        if verdict == "accept" and n is not None:      # 'either' (same new ref twice) is refused by the code as it stands
             for i, v in sp.ds.items():
                 if i not in n.ds:
                     dead[i] = v
@@ -377,6 +377,23 @@ def _observables(obs):
 def _brief(obs):
     return {"raw_tags": obs["raw_tags"], "raw_ds": obs["raw_ds"], "colls": obs["colls"], "types": obs["types"],
             "views_equal_raw": {k: v == obs["raw_tags"] for k, v in obs["views"].items()}}
+
+
+def domain_cut(hist, steps):
+    """Index of the first op that hands associate / disassociate / removeDatasets a FORGED ref: the dataset id is alive
+    in the implementation's own tables (observed after the previous step) under a different dataset type, data ID or
+    run.  The registry trusts resolved refs; such inputs are outside the property's domain (design.d/C02.md), so a
+    history is compared up to that op only.  Decided on observations, so it holds whatever the generator believed."""
+    for i, op in enumerate(hist):
+        if i == 0 or op[0] not in ("Assoc", "Disassoc", "RemoveDs"):
+            continue
+        obs = steps[i - 1]["obs"]
+        alive = {i_: (t, r) for i_, t, r in obs["raw_ds"]}
+        data = {(c, i_): d for c, t, d, i_ in obs["raw_tags"]}
+        for i_, t, d, r in (op[2] if op[0] != "RemoveDs" else op[1]):
+            if i_ in alive and (alive[i_] != (t, r) or data.get((r, i_)) != d):
+                return i
+    return len(hist)
 
 
 def nontrivial_rule(hist, steps):
@@ -504,6 +521,10 @@ def run(ctx: Ctx):
     for h, steps, org in zip(hists, results, origins):
         if steps is None:
             continue
+        cut = domain_cut(h, steps)
+        if cut < len(h):
+            ctx.hist("out_of_domain", "history cut at a forged ref")
+            h, steps = h[:cut], steps[:cut]
         if check_history(ctx, h, steps, org):
             any_fail = True
         if nontrivial_rule(h, steps):
@@ -544,5 +565,6 @@ def run(ctx: Ctx):
         res = execute(ctx, extra, chunk=2)
         for k, (h, steps) in enumerate(zip(extra, res)):
             if steps is not None:
-                check_history(ctx, h, steps, f"search/{k}")
+                cut = domain_cut(h, steps)
+                check_history(ctx, h[:cut], steps[:cut], f"search/{k}")
         ctx.cov["search"] = f"{len(extra)} further histories of 60 ops on the implementation; oracle failures found: {len(ctx.oracle_failures)}"
